@@ -55,6 +55,7 @@ class TLCResult(object):
         self.distinct = int(m.group(2)) if m else 0
         self.violated = re.findall(r"Error: Invariant (\S+) is violated", out)
         self.violated += re.findall(r"Error: Action property (\S+) is violated", out)
+        self.violated += re.findall(r"Error: Temporal property (\S+) was violated", out)
         if "Temporal properties were violated" in out:
             self.violated.append("temporal")
         if re.search(r"Error: Deadlock reached", out):
